@@ -1,10 +1,87 @@
 import Vegeta.Go.Proto
-/-! Driver operations of property C15 (ops are named `c15.<name>`). -/
+import Vegeta.Model.TargeterConc
+import Vegeta.Driver.C14
+/-! Driver operations of property C15 (ops are named `c15.<name>`).
+
+A schedule is a list of caller ids; each id fires the action that caller has enabled
+(`lock`/`add` when idle, `finish` when holding).  Stream callers stop after they were told
+`ErrNoTargets` three times (the harness's goroutines do the same); after the schedule the
+remaining callers are drained round-robin. -/
 namespace Vegeta.Driver.C15
 open Vegeta.Go Vegeta.Go.Proto
+open Vegeta.Model Vegeta.Model.TargeterConc
 
-def handle (_op : String) (args : List String) : Option String :=
-  match _op with
+def sortStrings (xs : List String) : List String := (xs.toArray.qsort (· < ·)).toList
+
+def exhaustedOf {T} (log : List (Ev T)) (c : Nat) : Nat :=
+  (log.filter fun e => match e with | .exhausted c' => c' == c | _ => false).length
+
+/-- fire caller `c`'s enabled action unless it already saw exhaustion three times -/
+def fire {S R T} (sys : Sys S R T) (s : St S R T) (c : Nat) : St S R T :=
+  match s.loc[c]? with
+  | some .idle => if exhaustedOf s.log c ≥ 3 then s else (step sys s (.lock c)).getD s
+  | some (.holding _) => (step sys s (.finish c)).getD s
+  | none => s
+
+def allDone {S R T} (s : St S R T) : Bool :=
+  (List.range s.loc.length).all fun c =>
+    (match s.loc[c]? with | some .idle => true | _ => false) && exhaustedOf s.log c ≥ 3
+
+def drain {S R T} (sys : Sys S R T) : Nat → St S R T → St S R T
+  | 0, s => s
+  | fuel + 1, s =>
+    if allDone s then s
+    else drain sys fuel ((List.range s.loc.length).foldl (fire sys) s)
+
+/-- results delivered after the same caller had already been told `ErrNoTargets` -/
+def lateResults {T} : List (Ev T) → List Nat → Nat
+  | [], _ => 0
+  | .exhausted c :: r, seen => lateResults r (c :: seen)
+  | .result c _ :: r, seen => (if seen.contains c then 1 else 0) + lateResults r seen
+
+def showStream {T} (log : List (Ev T)) (callers : Nat) (showT : T → String) : String :=
+  let res := log.filterMap fun e => match e with
+    | .result _ (.ok t) => some ("ok " ++ showT t)
+    | .result _ (.error e) => some ("err " ++ toString e)
+    | .result _ .panic => some "panic"
+    | .exhausted _ => none
+  let ex := (List.range callers).map (exhaustedOf log)
+  "ok " ++ toString res.length ++ " ; " ++ " ; ".intercalate (sortStrings res) ++
+    " ; ex " ++ showNats ex ++ " ; late " ++ toString (lateResults log [])
+
+def handle (op : String) (args : List String) : Option String :=
+  match op with
+  | "c15.static" => do
+    -- k, callers, schedule → per-index counts of the targets handed out
+    let ((k, callers, sched), _) ← (do let k ← nat; let c ← nat; let s ← listOf nat; pure (k, c, s)).run args
+    let fireS := fun (s : SSt) (c : Nat) =>
+      match s.loc[c]? with
+      | some none => (sstep k s (.add c)).getD s
+      | some (some _) => (sstep k s (.finish c)).getD s
+      | none => s
+    let s1 := sched.foldl fireS (sinit callers)
+    -- finish whatever is still pending
+    let s2 := (List.range callers).foldl (fun s c => match s.loc[c]? with
+      | some (some _) => (sstep k s (.finish c)).getD s | _ => s) s1
+    if s2.log.any (fun e => match e.2 with | .ok _ => false | _ => true) then pure "panic" else
+    let counts := (List.range k).map fun j => (s2.log.filter fun e => e.2 == .ok j).length
+    pure ("ok " ++ toString s2.log.length ++ " " ++ showNats counts)
+  | "c15.json" => do
+    let ((body, hdr, src, callers, sched), _) ← (do
+      let b ← bytes; let h ← C14.pVMap; let s ← bytes; let c ← nat; let sc ← listOf nat
+      pure (b, h, s, c, sc)).run args
+    let cfg : JSONTargets.Cfg := { dec := JSONTargets.decodeImage, body := body, hdr := hdr }
+    let sys := jsonSys cfg
+    let s1 := sched.foldl (fire sys) (init src callers)
+    let s2 := drain sys (src.length + 8) s1
+    pure (showStream s2.log callers C14.showRec)
+  | "c15.http" => do
+    let ((c, callers, sched), _) ← (do let c ← C14.pHTTPCase; let n ← nat; let sc ← listOf nat; pure (c, n, sc)).run args
+    let sys := httpSys c.cfg
+    let st0 : HTTPTargets.St := { ps := HTTPTargets.PS.init c.src, heap := c.heap }
+    let s1 := sched.foldl (fire sys) (init st0 callers)
+    let s2 := drain sys (c.src.length + 8) s1
+    pure (showStream s2.log callers (fun t => C14.showView (HTTPTargets.viewTarget s2.src.heap t)))
   | _ => none
 
 end Vegeta.Driver.C15
